@@ -167,7 +167,13 @@ def run_property(pid, rules, tier, seed, explanation, assumptions, replay=None, 
             )
     known = [k for k in load_known() if k.get("property") == pid]
     known_open = {k["key"]: k for k in known if k.get("status") == "known"}
-    findings = [f for r in results for f in r.findings]
+    findings = []
+    seen_keys = set()
+    for r in results:
+        for f in r.findings:
+            if f.key not in seen_keys:  # several sites of one construct share a key
+                seen_keys.add(f.key)
+                findings.append(f)
     viol, kf = [], []
     for f in findings:
         if f.key in known_open:
